@@ -6,6 +6,7 @@ import WellenModel.Model.HierDump
 import WellenModel.Model.Slice
 import WellenModel.Model.Fst
 import WellenModel.Model.Load
+import WellenModel.Model.Detect
 /-
 `wmdriver`: reads one request per line on stdin, answers `<model reply>\t<spec reply>` per line.
 Imports only the import-free `Model` modules (the same definitions the theorems are about).
@@ -218,6 +219,19 @@ def handleLoadSeq (ns ops : String) : String × String :=
     | none => ("bad-request", "-")
     | some (_, _, mo, so) => ("|".intercalate mo.reverse, "|".intercalate so.reverse)
 
+/-! ### format detection (C16) -/
+open Wellen.Detect in
+def handleDetect (hex : String) : String × String :=
+  match hexBytes? hex with
+  | none => ("bad-request", "-")
+  | some bs =>
+    let f := detect bs
+    let name := match f with | .vcd => "Vcd" | .fst => "Fst" | .ghw => "Ghw" | .unknown => "Unknown" | .hang => "hang" | .osdep => "osdep"
+    -- the property: never hang / panic; Unknown exactly when the data begins like none of the formats
+    let fid := if f = .hang then "F10" else if bs.isEmpty then "F9" else "-"
+    let spec := if f = .osdep then "-" else if f = .hang || bs.isEmpty then "Unknown" else name
+    (name, spec ++ "\t" ++ fid)
+
 /-! ### whole VCD bodies -/
 open Wellen.Bits Wellen.Store Wellen.Spec Wellen.VcdBody in
 def parseVars (s : String) : Option (List (List Nat × SigType)) :=
@@ -413,6 +427,7 @@ def handleVcd (opts vars rmap body : String) : String × String :=
 
 def handle (line : String) : String × String :=
   match splitSp line with
+  | ["detect", hex] => handleDetect hex
   | ["loadseq", n, _, ops] => handleLoadSeq n ops
   | ["fstw", tp, chs] => handleFstw tp chs
   | ["slice", w, ops, msb, lsb] => handleSlice w ops msb lsb
